@@ -14,9 +14,9 @@ VARIABLE i
 TValueBound == 4          \* |entry| of every input array (Pythagorean columns go up to 4)
 
 CfgFields == {"op", "kind", "shape", "rank", "family", "how", "mode", "operand", "odim", "keep", "copy", "npad", "padb",
-              "lens", "maxrank", "thr", "listin", "fshapes", "coreshape", "pshapes", "rshapes", "mag", "omix", "steps"}
+              "lens", "maxrank", "thr", "listin", "fshapes", "coreshape", "pshapes", "rshapes", "mag", "omix", "steps", "grade", "negmode", "cmix", "cdtypes"}
 OutFields == {"raised", "malformed", "exact", "dense", "cn", "cnfin", "wmin", "summ", "sfin", "parts", "perm",
-              "orth", "orthfin", "nproj", "recon", "slices", "dense_im", "dtype", "steps"}
+              "orth", "orthfin", "nproj", "recon", "slices", "dense_im", "dtype", "steps", "recon_hi", "slices_lo", "pdtypes"}
 Ops == {"normalize", "cp_flip_sign", "cp_permute_factors", "pad_tt_rank", "cp_mode_dot", "tucker_mode_dot",
         "cp_to_parafac2", "svd_roundtrip", "svd_compress", "sequence"}
 
@@ -75,8 +75,11 @@ InDomain(e) ==
             /\ [k \in 1..Len(in.rs) |-> in.rs[k].shape] = c.rshapes /\ Len(c.shape) = 2 /\ Len(c.rank) = 1
             /\ Len(c.lens) = Len(in.fs) /\ KeepsAll(c)           \* every non-zero singular value fits under the limit
             /\ Len(e.out.slices) = Len(in.fs)
-            /\ \A s \in 1..Len(in.fs) : LET X == MatMul(in.fs[s], in.rs[s]) IN
-                                          e.out.slices[s].shape = X.shape /\ e.out.slices[s].data = X.data)
+            /\ c.grade \in {0, GradeExp} /\ Len(e.out.slices_lo) = Len(in.fs)
+            \* the slice handed to tensorly is  slices[s] + 2^-grade * slices_lo[s]
+            /\ \A s \in 1..Len(in.fs) : LET A == GradedA(c, in.fs[s], in.rs[s])  B == GradedB(c, in.fs[s], in.rs[s]) IN
+                                          /\ e.out.slices[s].shape = A.shape /\ e.out.slices[s].data = A.data
+                                          /\ IsLogT(e.out.slices_lo[s]) /\ e.out.slices_lo[s].shape = B.shape /\ e.out.slices_lo[s].data = B.data)
     /\ c.mode < Len(c.shape) \/ c.op \notin {"cp_flip_sign", "cp_mode_dot", "tucker_mode_dot"}
     /\ (c.op \in {"cp_mode_dot", "tucker_mode_dot"} =>
             IF c.operand = "matrix" THEN in.m.shape = <<c.odim, c.shape[c.mode + 1]>> ELSE Len(in.v) = c.shape[c.mode + 1])
@@ -136,7 +139,9 @@ Verdict(e) ==
             LET P == [fs |-> out.parts.fs] IN
             IF ~out.exact THEN "Exact"
             ELSE IF ~PaddedRanks(kd, in, P, c.npad, c.padb) THEN "RanksEnlarged"
-            ELSE IF PadDense(kd, P, c.padb) # X THEN "Dense" ELSE "ok"
+            ELSE IF PadDense(kd, P, c.padb) # X THEN "Dense"
+            ELSE IF c.cmix # "none" /\ out.pdtypes # c.cdtypes THEN "CoreDtype"       \* every core keeps its own storage type
+            ELSE "ok"
       [] c.op \in {"cp_mode_dot", "tucker_mode_dot"} ->
             \* (with an operand of another type the harness logs OMixDen * result; real and imaginary parts separately)
             IF ~CloseQ(out.dense, X) THEN "Dense"
@@ -151,7 +156,10 @@ Verdict(e) ==
             ELSE IF ~out.orthfin \/ out.orth > NormTol THEN "Orthonormal" ELSE "ok"
       [] c.op = "svd_compress" ->
             \* loading_i @ score_i (or the untouched slice) gives back every slice: nothing was truncated
-            IF Len(out.recon) # Len(in.fs) \/ \E s \in 1..Len(in.fs) : ~CloseQ(out.recon[s], MatMul(in.fs[s], in.rs[s])) THEN "Recon"
+            IF Len(out.recon) # Len(in.fs) \/ \E s \in 1..Len(in.fs) : ~CloseQ(out.recon[s], GradedA(c, in.fs[s], in.rs[s])) THEN "Recon"
+            \* graded spectrum: (reconstruction - leading part) * 2^grade is the last component: it was not truncated away
+            ELSE IF c.grade # 0 /\ (Len(out.recon_hi) # Len(in.fs)
+                                    \/ \E s \in 1..Len(in.fs) : ~IsLogQ(out.recon_hi[s]) \/ ~CloseQ(out.recon_hi[s], GradedB(c, in.fs[s], in.rs[s]))) THEN "ReconFine"
             ELSE "ok"
       [] c.op = "svd_roundtrip" ->
             IF Len(out.recon) # Len(in.ps) \/ \E s \in 1..Len(in.ps) : ~CloseQ(out.recon[s], P2Slice(in, s)) THEN "Recon"
